@@ -53,6 +53,12 @@ PROPS["C05"] = {
         H(RGP, "c05_l4_check_comparison_int_int", "check_comparison (region)", "dispatch literal-type x stats-type with flip; x op val ==> true", lane="KX"),
         H(RGP, "c05_l4_check_comparison_f64__excluding_known", "check_comparison (region)", "Double/Float stats x Float64/Float32 literal, outside D6", lane="KX"),
         H(RGP, "c05_l4_check_comparison_conservative", "check_comparison (region)", "unsupported literal or non-comparison operator ==> true", lane="KX"),
+        H(RGP, "c05_l5_step_binary", "row_group_might_match / row_group_definitely_matches (whole bodies)", "inductive step for AND / OR / comparison at the root, all 3VL truth values of the operands: tv==T ==> might; definitely ==> tv==T; callees by contract", lane="KX"),
+        H(RGP, "c05_l5_step_not", "row_group_might_match / row_group_definitely_matches (whole bodies)", "inductive step for NOT: e FALSE for a row ==> might(NOT e); definitely(NOT e) never claimed", lane="KX"),
+        H(RGP, "c05_l5_step_between", "row_group_might_match / row_group_definitely_matches (whole bodies, carrier Expr)", "inductive step for [NOT] BETWEEN from the contracts of the two generated comparisons", lane="KX"),
+        H(RGP, "c05_l5_step_in_list", "row_group_might_match / row_group_definitely_matches (whole bodies, carrier Expr)", "inductive step for [NOT] IN from the contracts of the generated equalities", lane="KX", bound="IN-list length <= 2 (the `any` loop)"),
+        H(RGP, "c05_l5_other_kinds_conservative", "row_group_might_match / row_group_definitely_matches (whole bodies, carrier Expr)", "every other expression kind: might == true, definitely == false", lane="KX"),
+        H(RGP, "c05_l6_prune_row_groups", "prune_row_groups (whole body)", "result ascending, in range, contains every row group with a matching row; no predicate ==> all indices", lane="KX", bound="<= 3 row groups (the filter/collect loop)"),
     ],
     "trusted_base": [
         "Parquet writer statistics are sound for the file (min <= v <= max in IEEE order for non-NaN v; null_count exact) - assumption of the property itself",
